@@ -91,6 +91,12 @@ def generate(rng, idx, tier, variant):
     for nm in rng.sample(names, rng.randint(0, min(2, len(names)))):
         init_kw[nm] = {'via': rng.choice(handles[nm]), 'v': [float(rng.randrange(1, 50)) for _ in range(n)] if rng.random() < 0.6 else float(rng.randrange(1, 50))}
     spec = {'span': sp, 'model': model, 'aliases': [[k_, v_] for k_, v_ in al.items()], 'topology': topo, 'preferred': pref, 'init_kw': init_kw, 'strict': rng.random() < 0.3}
+    # how the object comes into being: plain constructor or from_dataframe; directly on (AliasMixin, Base) or as a subclass
+    # of another alias-enabled class (with other aliases) that may already have been instantiated in this process
+    spec['route'] = rng.choice(['init', 'init', 'from_dataframe']) if sp['type'] != 'list_mixed' else 'init'
+    if rng.random() < 0.3:
+        pal, _ = gen_aliases(rng, names)
+        spec['parent'] = {'aliases': [[k_, v_] for k_, v_ in pal.items() if k_ != v_], 'instantiate_first': rng.random() < 0.7}
     ops = []
     base = 100
     for _ in range(rng.randint(3, 16)):
@@ -145,7 +151,17 @@ def build_classes(fsic, spec):
         base = fsic.build_model(fsic.parse_model(model['script']))
     else:
         base = probes.make_scripted(fsic, model)
-    mixed = type('Aliased', (AliasMixin, base), {'ALIASES': dict(map(tuple, spec['aliases'])), 'PREFERRED_NAMES': list(spec['preferred'])})
+    par = spec.get('parent')
+    if par:
+        parent = type('AliasedParent', (AliasMixin, base), {'ALIASES': dict(map(tuple, par['aliases']))})
+        if par.get('instantiate_first'):
+            try:
+                parent(spans.make_span(spec['span']))
+            except Exception:
+                pass
+        mixed = type('Aliased', (parent,), {'ALIASES': dict(map(tuple, spec['aliases'])), 'PREFERRED_NAMES': list(spec['preferred'])})
+    else:
+        mixed = type('Aliased', (AliasMixin, base), {'ALIASES': dict(map(tuple, spec['aliases'])), 'PREFERRED_NAMES': list(spec['preferred'])})
     return base, mixed
 
 
@@ -183,7 +199,19 @@ def execute(schedule, ctx):
         if it['via'] != nm:
             ctx.probe('constructor-keyword-through-alias')
 
+    route = spec.get('route', 'init')
+    if spec.get('parent'):
+        ctx.probe('class:subclass-of-alias-class' + ('/parent-instantiated-first' if spec['parent'].get('instantiate_first') else ''))
+    ctx.probe('route:' + route)
+
+    def frame(kw):
+        import pandas as pd
+
+        return pd.DataFrame({k: v for k, v in kw.items()}, index=spans.make_span(spec['span']))
+
     def construct_A():
+        if route == 'from_dataframe':
+            return mixed.from_dataframe(frame(kwA), strict=spec['strict'])
         return mixed(spans.make_span(spec['span']), strict=spec['strict'], **kwA)
 
     lb = probes.LineBudget([REPO + '/fsic'], limit=BUDGET, mode='stop')
@@ -203,7 +231,10 @@ def execute(schedule, ctx):
         chk('preferred/ambiguous-rejected', isinstance(errA, ValueError), {'exc': type(errA).__name__ if errA else None, 'preferred': spec['preferred'], 'aliases': al})
         ctx.outcome('construct', 'ambiguous:' + (type(errA).__name__ if errA else 'accepted'))
         return
-    K = base(spans.make_span(spec['span']), strict=spec['strict'], **kwK)
+    if route == 'from_dataframe':
+        K = base.from_dataframe(frame(kwK), strict=spec['strict'])
+    else:
+        K = base(spans.make_span(spec['span']), strict=spec['strict'], **kwK)
     chk('construction/succeeds', errA is None, {'exc': type(errA).__name__ if errA else None, 'msg': str(errA)[:200] if errA else None, 'aliases': al, 'kw': list(kwA)})
     if A is None:
         ctx.outcome('construct', 'raised')
